@@ -81,8 +81,7 @@ def run(chk):
     chk.assumptions += ["the relation validated against is the one printed by pset.constraints() (for a before/after pair: before shifted onto the unprimed block, conjoined with after)",
                         "PR-family functions are validated against the property's notion (bounded below by some constant, decreasing by some fixed positive amount): "
                         "their mu_0 is 0 / unconstrained in termination.cc and is not a lower bound",
-                        "completeness of the PR two-system form is only expected when 'before' carries the whole guard (before included in the domain of the relation); "
-                        "otherwise a disagreement is the recorded finding C18-pr2-guard"]
+                        "the PR_2 entry points are judged against the two-system encoding of (guard, after), guard = before /\\ exists x'. after as computed by the harness with the same pointset operations and verified by exact elimination (tie-guard)"]
     chk.prove(COQ_FILES)
     common.coq_extract("Extract_term.v", ["term.ml", "term.mli"], deps=COQ_FILES + ["Base/Sys.v", "Base/FM.v", "Base/Sup.v"])
     judge = common.ocaml_build("judge_term", ["gen/term.mli", "gen/term.ml", "zutil_term.ml", "judge_term.ml"])
